@@ -140,7 +140,9 @@ def circumscribing_circle_for_triangle(
     cc_num = np.cross(a, b) + np.cross(b, c) + np.cross(c, a)
     cc_norm = norm(cc_num)
     ctr = Coordinate._from_xyz([i/cc_norm for i in cc_num])
-    rad = math.acos(np.dot(a, np.cross(b, c))/cc_norm) * EARTH_RADIUS
+    # The triple-product form acos(a . (b x c) / |cc_num|) loses 1/angle^3 of its digits for small
+    # triangles (centimetres on a 1 km circle); measure the radius from the centre instead
+    rad = max(dist_xyz_meters(ctr, p) for p in points)
     return ctr, rad
 
 
